@@ -4,6 +4,7 @@ Imports the executable models and the regenerated tables only (no Mathlib), so i
 native executable; `lake env lean --run Driver.lean` is the fall-back.
 -/
 import DL.Model.Codec
+import DL.Model.DecFiles
 import DL.Gen.Particles
 import DL.Gen.Models
 import DL.Gen.Grammar
@@ -207,6 +208,15 @@ def handle (x : Sexp) : Sexp :=
       | .ok a => ok (encAmpOut a)
       | .error e => encEmitErr e)
     | _, _ => bad "emit_amp"
+  | .list [.atom "dec_read", extra, .atom text] => match extra.asStrs with
+    | some ex =>
+      (match readDoc { labelChars := Gen.labelChars, models := registered Gen.knownModels ex } text with
+      | .ok d => ok (.list (d.map encStmt))
+      | .error e => tag "err" [.atom "ParseError", .atom e])
+    | none => bad "dec_read"
+  | .list [.atom "concat_files", fs] => match fs.asStrs with
+    | some fs => ok (.atom (String.ofList (concatFiles (fs.map fun f => decodeFile f.toList))))
+    | none => bad "concat_files"
   | .list [.atom "lex_model", names, .atom text] => match names.asStrs with
     | some ns => (match lexModel ns text.toList with
       | some (m, rest) => ok (.list [.atom m, .atom (String.ofList rest)])
